@@ -24,6 +24,8 @@ prop(
     floors={
         Q: {
             "probes_delivered": 1,
+            "scenarios_with_different_limits_per_side": 10,
+            "fitting_datagrams_accepted": 100,
 
             "sweep_cases": 5000,
             "sends_accepted": 200_000,
